@@ -298,7 +298,7 @@ func (L *outsNet) attack(name string, x outsWire) {
 		if _, rel, _ := dst.Resolve(h.RemoteIndex); rel && L.relOf(dst, h.RemoteIndex) == outsRelTerm {
 			inner := b[header.Len : len(b)-16]
 			owner, _ := dst.RelayOwner(h.RemoteIndex)
-			ctr := owner.WinCur + 1
+			ctr := owner.WinCur + 2000 // counters the real peer will not reach in this run (its own stay inside the window)
 			wrap := func(q []byte, m string, extra ...any) {
 				pkt := dst.SealRelay(h.RemoteIndex, h.RemoteIndex, header.Version, 1, 1, ctr, q)
 				ctr++
